@@ -24,6 +24,9 @@ func init() {
 			"Not covered: that the dependency's lexers surface a reader error through Err() (read: parse.NewInput stores the io.ReadAll error; trusted).",
 		Run: runC14,
 	})
+	mutant(&Mutant{Name: "c14-cmd-input-copy-error-shadowed", Property: "C14", File: "minify.go",
+		Old: "\t} else if _, err := io.Copy(in, r); err != nil {\n\t\treturn err\n\t}\n", New: "\t} else if _, err := io.Copy(in, r); err == nil {\n\t\t_ = in.Sync()\n\t}\n",
+		Rule: "R14.5", Construct: "cmdMinifier.Minify/read of the input"})
 	mutant(&Mutant{Name: "c14-cmd-copy-error-dropped", Property: "C14", File: "minify.go",
 		Old: "\t\tif _, werr := io.Copy(w, out); werr != nil && err == nil {\n\t\t\terr = werr\n\t\t}\n", New: "\t\tio.Copy(w, out)\n",
 		Rule: "R14.4", Construct: "cmdMinifier.Minify"})
@@ -57,6 +60,7 @@ func runC14(c *Ctx) {
 	c.r141()
 	c.pipeProtocol("R14.3")
 	c.r144()
+	c.r145()
 }
 
 // minifierMethods returns the Minify methods of type Minifier in the format packages.
@@ -723,4 +727,113 @@ func (c *Ctx) r144() {
 	}
 	c.R.Note("R14.4: %d functions with an io.Writer parameter outside the probing minifiers, %d direct writes", nFuncs, nWrites)
 	c.R.Floor(rule, "functions with an io.Writer parameter", nFuncs, 5)
+}
+
+// R14.5: a failed read of the caller's reader fails the call.
+func (c *Ctx) r145() {
+	const rule = "R14.5"
+	c.R.Rule(rule, "library packages and cmd/minify: for every call that consumes an io.Reader parameter of the enclosing function and returns an error — io.Copy(dst, r), io.CopyN, io.ReadAll(r), io.ReadFull, r.Read — the error is bound to a variable e, and from the call no `return` whose results do not mention e (nor the end of the function) is reachable without passing an outcome that establishes e == nil. A result bound to a shadowing variable, or tested with the wrong polarity, lets a reader failure pass as success with truncated input")
+	readers := map[string]int{"io.Copy": 1, "io.CopyN": 1, "io.CopyBuffer": 1, "io.ReadAll": 0, "io.ReadFull": 0, "io.ReadAtLeast": 0}
+	n := 0
+	rels := append([]string{"cmd/minify"}, libPkgs...)
+	for _, rel := range rels {
+		pk := c.P.Pkg(rel)
+		if pk == nil {
+			continue
+		}
+		info := pk.TypesInfo
+		for _, fd := range load.FuncDecls(pk) {
+			if fd.Body == nil {
+				continue
+			}
+			// reader-typed parameters and locals assigned from opening an input
+			isReader := func(e ast.Expr) bool {
+				id, ok := ast.Unparen(e).(*ast.Ident)
+				if !ok {
+					return false
+				}
+				v, isVar := info.Uses[id].(*types.Var)
+				if !isVar {
+					return false
+				}
+				ts := types.TypeString(v.Type(), nil)
+				return ts == "io.Reader" || ts == "io.ReadCloser"
+			}
+			g := c.graph(pk, fd)
+			fname := pk.Name + "." + load.FuncName(fd)
+			k := 0
+			for _, y := range g.Nodes {
+				a := y.Ast()
+				if a == nil || y.Kind != flow.KStmt {
+					continue
+				}
+				var call *ast.CallExpr
+				flowInspectCalls(a, func(cl *ast.CallExpr) {
+					if idx, ok := readers[calleeName(info, cl)]; ok && idx < len(cl.Args) && isReader(cl.Args[idx]) {
+						call = cl
+					}
+					if sel, ok := cl.Fun.(*ast.SelectorExpr); ok && sel.Sel.Name == "Read" && isReader(sel.X) {
+						call = cl
+					}
+				})
+				if call == nil {
+					continue
+				}
+				n++
+				k++
+				construct := fmt.Sprintf("%s/read of the input #%d (%s)", fname, k, str(call.Fun))
+				e := assignedErr(info, y, call)
+				if e == nil {
+					// returned directly?
+					if r, isRet := y.Stmt.(*ast.ReturnStmt); isRet && len(r.Results) > 0 {
+						c.R.OK(rule, construct, c.pos(call), "result returned directly")
+						continue
+					}
+					c.R.Bad(rule, construct, c.pos(call), "the error of reading the input is not bound to a variable: a failing reader goes unnoticed")
+					continue
+				}
+				mentions := func(r *ast.ReturnStmt) bool {
+					return flow.Contains(r, func(q ast.Node) bool {
+						id, ok := q.(*ast.Ident)
+						return ok && info.Uses[id] == e
+					})
+				}
+				// outcomes establishing e != nil
+				var nonNil []*flow.Node
+				for _, q := range g.Nodes {
+					if errOutcome(info, q, e, false) {
+						nonNil = append(nonNil, q)
+					}
+				}
+				failureReturn := func(q *flow.Node) bool {
+					r := retStmt(q)
+					if r == nil {
+						return false
+					}
+					if mentions(r) {
+						return true
+					}
+					for _, o := range nonNil {
+						if g.Dominates(o, q) {
+							return true // a return inside the error branch (e.g. `return false` after logging)
+						}
+					}
+					return false
+				}
+				p := g.Path(flow.Search{From: []*flow.Node{y}, Goal: func(q *flow.Node) bool {
+					if q.Kind == flow.KExit {
+						return true
+					}
+					return retStmt(q) != nil && !failureReturn(q)
+				}, Avoid: func(q *flow.Node) bool {
+					if errOutcome(info, q, e, true) {
+						return true // e is known to be nil beyond this outcome
+					}
+					return failureReturn(q)
+				}})
+				c.R.Check(p == nil, rule, construct, c.pos(call), "every continuation either knows "+c.P.NameOf(e)+" == nil or returns it", "after the read the function can go on and return without "+c.P.NameOf(e)+" although it may be non-nil (shadowed or mis-tested error): "+pathStr(c, g, p))
+			}
+		}
+	}
+	c.R.Floor(rule, "reads of an input reader", n, 3)
 }
